@@ -150,6 +150,27 @@ def record_traces(n_examples, seed):
         traces.append({'op': op, 'strict': strict, 'A': abst[:len(ra)], 'B': abst[len(ra):], 'passes': passes})
         concrete.append({'op': op, 'kw': repr(kw), 'a': [repr(r) for r in ra], 'b': [repr(r) for r in rb]})
     go()
+    # LARGE tables: > 64 / > 16k+1 chunk files and > 256 rows per chunk in the sorts behind the set operations
+    rng = random.Random(seed)
+    for na, nb, bs in ((343, 170, 3), (67, 33, 2), (700, 350, 300), (130, 65, 1), (99, 49, 3)):
+        ra = [(rng.choice([None, 1, 2, 3]), rng.choice([u'x', u'y', None])) for _ in range(na)]
+        rb = [ra[rng.randrange(na)] if i % 3 else (9, u'z') for i in range(nb)]
+        abst = values.abstract_batch([tuple(r) for r in ra + rb])
+        a = [list(HDR)] + [list(r) for r in ra]
+        b = [list(HDR)] + [list(r) for r in rb]
+        for op in ('complement', 'intersection'):
+            passes = []
+            with common.private_tmp() as tmp:
+                v = getattr(etl, op)(a, b, buffersize=bs, tempdir=tmp)
+                for _ in range(2):
+                    try:
+                        out = values.abstract_batch([tuple(r) for r in ra + rb] + [tuple(r) for r in etl.data(v)])[na + nb:]
+                        passes.append({'out': out, 'raised': False})
+                    except Exception as e:
+                        passes.append({'out': [], 'raised': True, 'exc': repr(e)})
+                del v
+            traces.append({'op': op, 'strict': False, 'A': abst[:na], 'B': abst[na:], 'passes': passes})
+            concrete.append({'op': op, 'kw': 'buffersize=%d' % bs, 'a': '%d rows' % na, 'b': '%d rows' % nb})
     return traces, concrete
 
 
